@@ -102,6 +102,8 @@ class Scenario:
         ctx = self.ctx
         must_abandon = []
         must_fail = []
+        just_answered = None
+        pending_before = False
         if a == "R":
             self.issue()
         elif a in "APHFG":
@@ -119,14 +121,18 @@ class Scenario:
                     return
                 if r["wire"] is None:
                     plain = self.response_plain(conn, r["id"])
+                    first_len = len(plain)
                     if a == "F":
-                        plain = self.event_plain(conn) + plain
+                        ev = self.event_plain(conn)
+                        first_len = len(ev)
+                        plain = ev + plain
                     elif a == "G":
                         plain = plain + self.event_plain(conn)
                     # the accessory's frame sizes; one choice ends a frame exactly between the CR and the LF of a header line
                     # or of the blank line (the decrypted pieces reach the HTTP layer separately)
                     crlf = [i + 1 for i in range(min(len(plain), 1000) - 1) if plain[i : i + 2] == b"\r\n"]
-                    r["wire"] = conn.wire(plain, self.rng.choice([None, [64], [1024], [7, 300]] + ([[self.rng.choice(crlf)]] * 2 if crlf else [])))
+                    tail_cuts = [[n] for n in (first_len - 1, first_len - 2, len(plain) - 1, len(plain) - 2) if 0 < n <= 1024]
+                    r["wire"] = conn.wire(plain, self.rng.choice([None, [64], [1024], [7, 300]] + ([[self.rng.choice(crlf)]] * 2 if crlf else []) + ([self.rng.choice(tail_cuts)] * 2 if tail_cuts else [])))
                     r["sent"] = 0
                 wire = r["wire"]
                 if a == "H" and r["answered"] == 0:
@@ -137,10 +143,14 @@ class Scenario:
                 elif a == "P":
                     rest = wire[r["sent"] :]
                     r["answered"] = 2
-                    await conn.send_pieces(rest, [len(rest) // 3, 2 * len(rest) // 3])
+                    just_answered = r
+                    pending_before = not self.reqs[r["id"]]["task"].done()
+                    await conn.send_pieces(rest, sorted({len(rest) // 3, 2 * len(rest) // 3, max(1, len(rest) - self.rng.randint(1, 17))}))
                 else:
                     conn.transport.write(wire[r["sent"] :])
                     r["answered"] = 2
+                    just_answered = r
+                    pending_before = not self.reqs[r["id"]]["task"].done()
         if a == "E":
             conn = self.newest_open_secure()
             # messages are never byte-interleaved: no event while a response is half-written on this connection
@@ -215,6 +225,15 @@ class Scenario:
                 conn.send(conn.http(200, body, "application/hap+json"))
                 ctx.count("unsolicited_sent")
         await vloop.settle()
+        if just_answered is not None and pending_before and not just_answered["conn"].closed_by_accessory:
+            # the accessory has written the COMPLETE response on a healthy connection and did nothing else: the caller gets it
+            rq = self.reqs[just_answered["id"]]
+            if not rq["task"].done():
+                self.ctx.violation("answered-request-still-pending", f"after action {a} in schedule {self.schedule}: the response for request {just_answered['id']} was written completely, the request is still pending", {"schedule": self.schedule, "api": self.api})
+            elif rq["exc"] is not None and not rq["cancelled"]:
+                self.ctx.violation("answered-request-failed", f"after action {a} in schedule {self.schedule}: the response for request {just_answered['id']} was written completely on a healthy connection, the request failed with {rq['exc']!r}", {"schedule": self.schedule, "api": self.api})
+            else:
+                ctx.count("answered_requests_completed")
         # the connection dropped: every request outstanding on it fails at once (not after its own 30 s timer)
         for uid in must_fail:
             if not self.reqs[uid]["task"].done():
